@@ -103,9 +103,56 @@ func runWire[T any, L tlist[T, L]](c *vlib.Ctx, k *kind[T, L], i int, r *vlib.Ra
 	}
 	// the reader is driven with the REFERENCE bytes, so a writer and reader that are wrong
 	// in the same way do not cancel out
-	checkRead(c, k, want, vals, []string{"Read(reference encoding)"})
-	if l.Size() != n {
-		c.Fail(k.name+".Write:wrong-size", "Write changed the list", detail())
+	back, buf, ok := checkRead(c, k, want, vals, []string{"Read(reference encoding)"})
+	if msg := sameAs(k, l, vals); msg != "" {
+		c.Fail(k.name+".Write:wrong-size", "Write changed the list: "+msg, detail())
+	}
+	// independence: the decoded list, the written list, the bytes produced by Write and the
+	// byte slice the reader was given are four separate things
+	if ok {
+		written := out.ToByteArray()
+		writtenWas := append([]byte(nil), written...)
+		alias := func(method, what, msg string) {
+			d := detail()
+			d["step"] = what
+			c.Fail(k.name+"."+method+":aliased", what+": "+msg, d)
+		}
+		bufWas := append([]byte(nil), buf...)
+		switch r.Intn(3) {
+		case 0: // write to the byte slice the list was read from
+			for j := range buf {
+				buf[j] ^= 0xA5
+			}
+			if msg := sameAs(k, back, vals); msg != "" {
+				alias("Read", "after overwriting the byte slice the list was read from, the decoded list changed", msg)
+			}
+		case 1: // change the decoded list
+			bm := scribbleList(k, back, r)
+			if msg := sameAs(k, l, vals); msg != "" {
+				alias("Read", "after changing the decoded list, the list that was written changed", msg)
+			}
+			if !bytes.Equal(buf, bufWas) {
+				alias("Read", "after changing the decoded list, the byte slice it was read from changed", "bytes differ")
+			}
+			if !bytes.Equal(written, writtenWas) {
+				alias("Write", "after changing the decoded list, the bytes produced by Write changed", "bytes differ")
+			}
+			if msg := sameAs(k, back, bm); msg != "" {
+				c.Fail(k.name+".Set"+k.short+":wrong-value", "set/add on a decoded list: "+msg, detail())
+			}
+		default: // change the list that was written
+			lm := scribbleList(k, l, r)
+			if msg := sameAs(k, back, vals); msg != "" {
+				alias("Read", "after changing the list that was written, the decoded list changed", msg)
+			}
+			if !bytes.Equal(written, writtenWas) {
+				alias("Write", "after changing the list that was written, the bytes produced by Write changed", "bytes differ")
+			}
+			if msg := sameAs(k, l, lm); msg != "" {
+				c.Fail(k.name+".Set"+k.short+":wrong-value", "set/add on a list after Write: "+msg, detail())
+			}
+		}
+		c.Count("wire_independence_checks", 1)
 	}
 	c.Count("wire_roundtrips", 1)
 	c.Count("wire_bytes", int64(len(want)))
